@@ -448,7 +448,8 @@ class Graph:
 
 
 # ------------------------------------------------------------------ one case
-FILE_VARIANTS = ['full', 'full', 'absent', 'colonly', 'rowonly', 'short', 'crlf', 'shortcrlf', 'full', 'full', 'absent', 'short', 'crlf', 'nonewline']
+FILE_VARIANTS = ['full', 'full', 'absent', 'colonly', 'rowonly', 'short', 'crlf', 'shortcrlf', 'full', 'full', 'absent', 'short', 'crlf', 'nonewline',
+                 'mixed-crlf-then-lf', 'mixed-lf-then-crlf', 'mixed-random']
 
 
 def make_files(rng, m, stub, variant):
@@ -459,8 +460,18 @@ def make_files(rng, m, stub, variant):
     if variant.startswith('short'):
         col_names = col_names[:rng.below(len(col_names) + 1)]
         row_names = row_names[:rng.below(len(row_names) + 1)]
-    col = ''.join(n + eol for n in col_names).encode('latin-1')
-    row = ''.join(n + eol for n in row_names).encode('latin-1')
+    def join(names):
+        if variant == 'mixed-crlf-then-lf':       # Windows lines, last line ends in a bare LF
+            eols = ['\r\n'] * (len(names) - 1) + ['\n']
+        elif variant == 'mixed-lf-then-crlf':
+            eols = ['\n'] * (len(names) - 1) + ['\r\n']
+        elif variant == 'mixed-random':
+            eols = [rng.choice(['\n', '\r\n']) for _ in names]
+        else:
+            eols = [eol] * len(names)
+        return ''.join(n + e for n, e in zip(names, eols)).encode('latin-1')
+    col = join(col_names)
+    row = join(row_names)
     if variant == 'nonewline' and row:
         row = row[:-1]                     # last line of .row not terminated: ReadError "missing newline"
     if variant == 'absent':
@@ -503,6 +514,9 @@ def gen_case(ck, rng, idx, workdir, size):
     if conic:
         g.family = 'conic'
         m = g.conic_model()
+    elif idx % 10 == 7:
+        g.family = 'norows'
+        m = g.model(norows=True)
     else:
         m = g.model()
     m.write(stub, names=False)
@@ -628,6 +642,10 @@ def exec_case(ck, exe, drv, st, case):
     st.inc('sources:' + ('suffix-free' if innocent else 'adversarial'))
     cls = 'innocent-sources' if innocent else 'adversarial-sources'
     # ---------------- (a) oracle on the delivered names
+    if vnames is None and src_kind == 'item_name':
+        # names were not requested; BasicProblem invents them lazily only when the graph export prints a variable
+        st.inc('class:item-names-not-generated')
+        return out
     if vnames is None:
         out.append(('no-names-delivered', 'names requested (mode %d, files %s) but AddVariables got no names' % (mode, variant), replay, True))
         return out
@@ -1028,12 +1046,15 @@ def stage_links(ck, drv, st, rng, n, cov=False):
 # ------------------------------------------------------------------ NameProvider stage
 def nameprovider_cases(rng, n):
     cases = [b'x\ny\nz\n', b'x\r\ny\r\n', b'\ny\n', b'x\n\nz\n', b'x\ny', b'', None, b'\r\n', b'a\rb\n', b'q\na\rb\n',
-             b'\r\r\n', b'abc\r\n\r\nd\n', b'\n', b'\n\n', b'a\n\r\n', b'x[1]\nx[2]\n', b'\rx\n', b'a\r\r\nb\n']
+             b'\r\r\n', b'abc\r\n\r\nd\n', b'\n', b'\n\n', b'a\n\r\n', b'x[1]\nx[2]\n', b'\rx\n', b'a\r\r\nb\n',
+             b'x1\r\nx11\n', b'x\r\ny\r\nz\n', b'x\ny\r\n', b'ab\r\ncd\nef\r\ngh\n']
     alpha = [b'a', b'b', b'x', b'_', b'[', b']', b'1', b'2', b'\r', b'\n', b'\n', b'\r\n', b' ']
     for _ in range(n):
         k = rng.below(4)
         if k == 0:     # well-formed LF
             cases.append(b''.join(bytes('n%d' % rng.below(100), 'ascii') + b'\n' for _ in range(rng.rint(1, 6))))
+        elif k == 1 and rng.chance(1, 2):   # well-formed, mixed line ends (some CRLF, some LF)
+            cases.append(b''.join(bytes('m%d' % rng.below(100), 'ascii') + rng.choice([b'\n', b'\r\n']) for _ in range(rng.rint(2, 6))))
         elif k == 1:   # well-formed CRLF
             cases.append(b''.join(bytes('v[%d]' % rng.below(100), 'ascii') + b'\r\n' for _ in range(rng.rint(1, 6))))
         else:          # arbitrary bytes from a small alphabet
@@ -1067,7 +1088,7 @@ def stage_nameprovider(ck, drv, st, rng, workdir, n, cov=False):
                              {'file_hex': c.hex(), 'replay': 'build harness/h_names.cc (see checks/c19.py stage_nameprovider), feed the hex line on stdin'}, found_input=True)
         elif a != 'error' and c:
             # oracle: well-formed files give back exactly their lines
-            names = [unhx(h) for h in a.split()[2:]]
+            names = [unhx(h) if re.fullmatch(r'-|([0-9a-f]{2})+', h) else '?' + h for h in a.split()[2:]]
             wf = file_lines(c)
             if b'\r' not in c.replace(b'\r\n', b'') and c.endswith(b'\n') and all(wf):
                 st.inc('np:wellformed')
